@@ -8,9 +8,10 @@
     the grid, one block per trial in which it has a level; its Derivation is
     the complex variant); every factor outside act_design (an implied derived
     factor: no variables, no Derivation constraints) a derived factor of
-    simple / WithinTrial act_design factors with any window (also one that is
-    not yet full in the first trials and then reads empty cells), exactly one
-    of whose levels accepts every argument tuple; any positive sustain counts
+    simple / WithinTrial act_design factors - or of implied factors listed
+    before it that have a level in every trial - with any window (also one
+    that is not yet full in the first trials and then reads empty cells),
+    exactly one of whose levels accepts every argument tuple; any positive sustain counts
     (Nest / Repeat, with the Sustain constraint) on the simple / WithinTrial
     factors of act_design, a WithinTrial factor sustained no longer than the
     factors it reads (sustain 1 on complex windows and implied factors); any number of
